@@ -51,12 +51,12 @@ theorem returns_sound (m : Method) (h : validateReturns [] m = []) :
       | cons z zs => rw [hres] at h; simp at h
 
 /-- the four passes of the link validator -/
-theorem linkValidate_nil_parts (m : Method) (h : linkValidate m = []) :
-    let route := ((m.annots.filter (·.name = "Route")).getLast?.map (·.value)).getD ""
-    let urlParams := extractUrlParams route
+theorem linkValidate_nil_parts (ctrlRoute : String) (m : Method) (h : linkValidate ctrlRoute m = []) :
+    let route := ((m.annots.filter (·.name = "Route")).head?.map (·.value)).getD ""
+    let urlParams := extractUrlParams ctrlRoute ++ extractUrlParams route
     let pathAttrs := m.annots.filter (·.name = "Path")
     let funcParams := m.params.map (·.name)
-    -- every {name} of the method route is referenced by a @Path (by alias or by name)
+    -- every {name} of the FULL route (controller prefix + method route) is referenced by a @Path (by alias or by name)
     (∀ p ∈ urlParams, (pathAttrs.map fun a => match aliasOf a with | .ok v => v | _ => a.value).contains p = true) ∧
     -- every @Path names a parameter, carries a well-typed alias, and a non-empty alias is a {name} of the route
     (∀ a ∈ pathAttrs, funcParams.contains a.value = true ∧ aliasOf a ≠ .bad ∧
@@ -95,9 +95,118 @@ theorem linkValidate_nil_parts (m : Method) (h : linkValidate m = []) :
     | true => rfl
     | false => exfalso; apply this; show (!funcParams.contains a.value) = true; rw [hc]; rfl
 
+/-- **one-to-one**: in an accepted route the `{names}` of the full template are pairwise distinct, the URL names of
+    the @Path annotations (alias, else the parameter's name) are pairwise distinct, every `{name}` is the URL name of
+    a @Path, and every ALIASED @Path names a `{name}` of the template.  (The fourth inclusion for un-aliased @Path
+    annotations is what finding C10-F2 is about: `link_bijection_partial` below needs it as a hypothesis, and
+    `unaliased_outside_route_is_accepted` shows the validator does not establish it.) -/
+theorem link_injective (ctrlRoute : String) (m : Method) (h : linkValidate ctrlRoute m = []) :
+    let route := ((m.annots.filter (·.name = "Route")).head?.map (·.value)).getD ""
+    let urlParams := extractUrlParams ctrlRoute ++ extractUrlParams route
+    let pathAttrs := m.annots.filter (·.name = "Path")
+    urlParams.Nodup ∧ (pathAttrs.map urlName).Nodup ∧
+    (∀ p ∈ urlParams, p ≠ "" → p ∈ pathAttrs.map urlName) ∧
+    (∀ a ∈ pathAttrs, ∀ al, aliasOf a = .ok al → al ≠ "" → urlName a ∈ urlParams) := by
+  intro route urlParams pathAttrs
+  have parts := linkValidate_nil_parts ctrlRoute m h
+  obtain ⟨hurl, hpath, _⟩ := parts
+  unfold linkValidate at h
+  simp only [List.append_eq_nil_iff] at h
+  obtain ⟨⟨⟨h1, h2⟩, _h3⟩, _h4⟩ := h
+  have hbadEmpty : ((m.annots.filter (·.name = "Path")).filter fun a => aliasOf a = .bad).isEmpty = true := by
+    cases hb : ((m.annots.filter (·.name = "Path")).filter fun a => aliasOf a = .bad) with
+    | nil => rfl
+    | cons x xs =>
+      exfalso
+      have hx : x ∈ ((m.annots.filter (·.name = "Path")).filter fun a => aliasOf a = .bad) := by rw [hb]; simp
+      have hx' := List.mem_filter.1 hx
+      exact (hpath x hx'.1).2.1 (by simpa using hx'.2)
+  simp only [hbadEmpty, Bool.not_true, Bool.false_eq_true, if_false] at h1
+  refine ⟨(goUrl_nodup _ _ _ h1).1, (goPath_names_nodup _ _ _ [] [] [] h2).1, ?_, ?_⟩
+  · intro p hp hne
+    have hc := hurl p hp
+    have hm : p ∈ (m.annots.filter (·.name = "Path")).map fun a => match aliasOf a with | .ok v => v | _ => a.value := by
+      simpa using hc
+    obtain ⟨a, ha, hap⟩ := List.mem_map.1 hm
+    refine List.mem_map.2 ⟨a, ha, ?_⟩
+    unfold urlName
+    cases hal : aliasOf a with
+    | none => rw [hal] at hap; exact hap
+    | bad => rw [hal] at hap; exact hap
+    | ok v =>
+      rw [hal] at hap
+      simp only at hap ⊢
+      subst hap
+      have : v.isEmpty = false := by
+        cases he : v.isEmpty with
+        | false => rfl
+        | true => exact absurd (String.isEmpty_iff.1 he) hne
+      simp [this]
+  · intro a ha al hal hne
+    have := (hpath a ha).2.2 al hal hne
+    unfold urlName
+    rw [hal]
+    have hne' : al.isEmpty = false := by
+      cases he : al.isEmpty with
+      | false => rfl
+      | true => exact absurd (String.isEmpty_iff.1 he) hne
+    simp only [hne', Bool.false_eq_true, if_false]
+    exact List.contains_iff_mem.1 this
+
+/-- the property's one-to-one correspondence, under the hypothesis the validator does not check (C10-F2) -/
+theorem link_bijection_partial (ctrlRoute : String) (m : Method) (h : linkValidate ctrlRoute m = [])
+    (hF2 : ∀ a ∈ m.annots.filter (·.name = "Path"), (∀ al, aliasOf a = .ok al → al = "") →
+        a.value ∈ extractUrlParams ctrlRoute ++ extractUrlParams (((m.annots.filter (·.name = "Route")).head?.map (·.value)).getD "")) :
+    let route := ((m.annots.filter (·.name = "Route")).head?.map (·.value)).getD ""
+    let urlParams := extractUrlParams ctrlRoute ++ extractUrlParams route
+    let pathNames := (m.annots.filter (·.name = "Path")).map urlName
+    urlParams.Nodup ∧ pathNames.Nodup ∧ (∀ p ∈ urlParams, p ≠ "" → p ∈ pathNames) ∧ (∀ n ∈ pathNames, n ∈ urlParams) := by
+  intro route urlParams pathNames
+  obtain ⟨h1, h2, h3, h4⟩ := link_injective ctrlRoute m h
+  refine ⟨h1, h2, h3, ?_⟩
+  intro n hn
+  obtain ⟨a, ha, han⟩ := List.mem_map.1 hn
+  subst han
+  cases hal : aliasOf a with
+  | none =>
+    have := hF2 a ha (by intro al h'; rw [hal] at h'; cases h')
+    unfold urlName; rw [hal]; exact this
+  | bad =>
+    have := hF2 a ha (by intro al h'; rw [hal] at h'; cases h')
+    unfold urlName; rw [hal]; exact this
+  | ok al =>
+    by_cases he : al = ""
+    · have := hF2 a ha (by intro al' h'; rw [hal] at h'; cases h'; exact he)
+      unfold urlName; rw [hal]; subst he
+      have e : ("" : String).isEmpty = true := by decide
+      simp only [e, if_true]; exact this
+    · exact h4 a ha al hal he
+
+/-- C10-F2, as a fact about the model: a route whose un-aliased @Path names no `{name}` of the template passes the
+    link validator (the witness of `corpus/C10/unlinked_path.jsonl`) -/
+theorem unaliased_outside_route_is_accepted :
+    let m : Method := { name := "Get", annots := [⟨"Method", "GET", [], ""⟩, ⟨"Route", "/b", [], ""⟩, ⟨"Path", "id", [], ""⟩],
+                        params := [⟨"id", "string"⟩], results := ["error"] }
+    linkValidate "/t" m = [] ∧ ¬ (urlName ⟨"Path", "id", [], ""⟩ ∈ extractUrlParams "/t" ++ extractUrlParams "/b") := by
+  decide
+
+/-- non-vacuity: a route with a prefix parameter, an aliased and an un-aliased @Path meets the hypotheses -/
+example :
+    let m : Method := { name := "Get", annots := [⟨"Method", "GET", [], ""⟩, ⟨"Route", "/{id}/x/{k}", [], ""⟩,
+                          ⟨"Path", "tenant", [], ""⟩, ⟨"Path", "id", [], ""⟩, ⟨"Path", "key", [("name", .str, "k")], ""⟩],
+                        params := [⟨"tenant", "string"⟩, ⟨"id", "int"⟩, ⟨"key", "string"⟩], results := ["error"] }
+    linkValidate "/t/{tenant}" m = [] := by decide
+
+/-- since the fix for C10-F5: an un-aliased @Path whose parameter is named like another @Path's alias is refused -/
+example :
+    let m : Method := { name := "Get", annots := [⟨"Method", "GET", [], ""⟩, ⟨"Route", "/{b}", [], ""⟩,
+                          ⟨"Path", "a", [("name", .str, "b")], ""⟩, ⟨"Path", "b", [], ""⟩],
+                        params := [⟨"a", "string"⟩, ⟨"b", "string"⟩], results := ["error"] }
+    linkValidate "" m = [err "linker-duplicate-path-alias-ref"] := by decide
+
 /-- **every non-context parameter is referenced** by a @Path or by another binding annotation -/
-theorem params_referenced (m : Method) (hnd : (m.params.map (·.name)).eraseDups.length = m.params.length)
-    (h : linkValidate m = []) :
+theorem params_referenced (ctrlRoute : String) (m : Method) (hnd : (m.params.map (·.name)).eraseDups.length = m.params.length)
+    (h : linkValidate ctrlRoute m = []) :
     ∀ p ∈ m.params, isContextType p.type = false →
       (∃ a ∈ m.annots, (a.name = "Path" ∨ isBindingAnnot a.name = true) ∧ a.value = p.name) := by
   intro p hp hctx
@@ -110,7 +219,7 @@ theorem params_referenced (m : Method) (hnd : (m.params.map (·.name)).eraseDups
   have hp' := List.filter_eq_nil_iff.1 hf p hp
   simp only [hctx, Bool.not_false, Bool.and_true, Bool.not_eq_true', Bool.not_eq_false] at hp'
   -- p.name ∈ seen2 ++ values of the other binding annotations that name a parameter
-  have hmem : p.name ∈ (linkValidate.goPath (extractUrlParams (((m.annots.filter (·.name = "Route")).getLast?.map (·.value)).getD ""))
+  have hmem : p.name ∈ (linkValidate.goPath (extractUrlParams ctrlRoute ++ extractUrlParams (((m.annots.filter (·.name = "Route")).head?.map (·.value)).getD ""))
       (m.params.map (·.name)) (m.annots.filter (·.name = "Path")) [] [] []).2 ++
       ((m.annots.filter fun a => isBindingAnnot a.name && !(a.value.toList.all (· = ' '))).filter
         fun a => (m.params.map (·.name)).contains a.value).map (·.value) := by
@@ -118,7 +227,7 @@ theorem params_referenced (m : Method) (hnd : (m.params.map (·.name)).eraseDups
   rcases List.mem_append.1 hmem with h1 | h1
   · -- values accumulated by the @Path pass are values of @Path annotations
     have key : ∀ (as : List Annot) (sp sv sa : List String) (x : String),
-        x ∈ (linkValidate.goPath (extractUrlParams (((m.annots.filter (·.name = "Route")).getLast?.map (·.value)).getD ""))
+        x ∈ (linkValidate.goPath (extractUrlParams ctrlRoute ++ extractUrlParams (((m.annots.filter (·.name = "Route")).head?.map (·.value)).getD ""))
               (m.params.map (·.name)) as sp sv sa).2 → x ∈ sp ∨ ∃ a ∈ as, a.value = x := by
       intro as
       induction as with
